@@ -430,7 +430,7 @@ def run_check(prop, tier, seed):
   os.makedirs(rdir, exist_ok=True)
   new_violations = []
   for v in ctx.violations:
-    entry = known_mod.match(prop.ID, v, known)
+    entry = known_mod.match(prop.ID, v, known, prop)
     if entry is not None:
       if entry['id'] not in printed_known:
         print('KNOWN-FINDING: property=%s %s' % (prop.ID, entry['what']))
